@@ -120,7 +120,8 @@ RULE = ('Cases are JSON: liq {t,p} (0.01..350 degC, max(psat67, psat97)..100 MPa
         'liquid u 0.11-3.6 kJ/kg, steam density 0.02-0.47 %, steam u 0.47-7.5 kJ/kg, psat 0.054-0.13 %), bound = 3 x the maximum '
         'of the sub-range(s) containing the state. Identity residual 1e-7 liquid / 1e-5 steam (measured < 1e-9 / < 1e-7 over 0.77M states), tsat inverse 1e-5 K (solver xtol; '
         'measured 2.3e-10), bounds predicate exact except within 1e-12 (relative) of a curved limit.'
-        ' The repeat call of every range-checked routine passes the flag positionally.')
+        ' The repeat call of every range-checked routine passes the flag positionally.'
+        ' Rounds 8-9: the singular saturation states of IAPWS-97 compared too; tsat with range checking at zero, negative and subnormal pressures.')
 ASSUMPTIONS = [
     'IAPWS97.py is the comparison formulation for oracle (a) (it is itself checked against an independent reference by C14); '
     '(a) only detects changes much larger than the inter-formulation difference tabulated in CAL_*',
